@@ -32,7 +32,7 @@ From Coq Require Import List ZArith.
 Import ListNotations.
 From KDB Require Import PropAbs PropAbsProofs.
 From KDB Require Util PropDefs PropFlags PropLink PropCheck PropSim PropGrow PropGrowMore PropMove PropMixed.
-From KDB Require TablesDefs Tables PropAbsAct.
+From KDB Require TablesDefs Tables PropAbsAct PropSimAct PropGrowAct.
 From KDB.generated Require OpsTable.
 
 (* Inv s [] says: every node of every binding is clean, every cached result is the denotation of its subtree, every
@@ -250,9 +250,8 @@ Print Assumptions C02_operator_expressions_wire_their_operands.
 (* 8. ACTING OBSERVERS on the abstract layer (coq/PropAbsAct.v): subscribers of valueChanged may also be observers that assign the
    announced value to another property from inside the notification (a complete nested assignment while the outer emission still has
    subscribers to serve).  For every network, every placement of such observers and every delivery order: whenever an assignment - or a
-   whole sequence of assignments - returns normally, every bound property equals its expression over the current values.  (The
-   refinement of the executable model to this layer is proved for observers that do not act, PropSim.v; with acting observers the
-   executable model is tied to it by PropCheck.check_c02 on every reached world.) *)
+   whole sequence of assignments - returns normally, every bound property equals its expression over the current values.  The executable
+   model refines this layer too (section 9 below, coq/PropSimAct.v). *)
 Theorem C02_consistent_with_acting_observers_abstract :
   forall F1 F2 F3 (order' : nat -> list PropAbsAct.sub) fuel s p v,
     tr s p = None -> oof s = false -> Inv F1 F2 F3 (PropAbsAct.lorder order') s [] ->
@@ -285,3 +284,51 @@ Proof.
   cbn. repeat split; auto.
   intros p lid [E|[E|[]]]; inversion E; subst; cbn; auto.
 Qed.
+
+(* 9. ACTING OBSERVERS on the executable model (coq/PropSimAct.v, coq/PropGrowAct.v): on worlds whose acting observers are subscribers of
+   valueChanged that assign the announced value to another property (the `pobsset ... 1 ...` observers of the scripts), Property::setHelper
+   IS the abstract assignment of section 8 (the slot's q.set(v) is the nested abstract assignment; a vanished target is skipped on both sides; a
+   bound target raises ReadOnlyProperty, so the call does not return normally); hence coherence - the same notion as in sections 2-6 - is kept
+   by every assignment that returns normally ... *)
+Theorem C02_set_helper_refines_abstract_set_with_acting_observers :
+  forall fn rtl order' f w q v w' s,
+    PropSimAct.SCA w -> PropSimAct.ORDOK' order' w -> PropSim.Rel w s -> PropDefs.set_helper fn rtl f w q v = (w', None) ->
+    PropSimAct.SCA w' /\ PropSim.FR w w' /\
+    PropSim.Rel w' (PropAbsAct.set' (PropSim.F1 fn) (PropSim.F2 fn) (PropSim.F3 fn) order' f s q v).
+Proof. exact PropSimAct.sim_set'. Qed.
+Print Assumptions C02_set_helper_refines_abstract_set_with_acting_observers.
+
+Theorem C02_assignment_with_acting_observers_keeps_coherence :
+  forall fn rtl f w p pr v w',
+    PropSimAct.SCA w -> PropSim.COH fn w -> Util.lookup (PropDefs.w_props w) p = Some pr -> PropDefs.pr_updater pr = None ->
+    PropDefs.set_helper fn rtl f w p v = (w', None) -> PropSimAct.SCA w' /\ PropSim.COH fn w' /\ PropSim.FR w w'.
+Proof. exact PropSimAct.assignment_coherent_act. Qed.
+Print Assumptions C02_assignment_with_acting_observers_keeps_coherence.
+
+(* ... and end to end: after ANY history of a growing network (section 5: new properties, plain observers, immediate bindings - fresh, late,
+   rebinding -, reset(), destruction of unread properties, both moves, assignments) followed by ANY history that attaches observers - plain
+   ones and observers of valueChanged that write another property - and assigns inputs (set, operator=, p = q.get()), with every call
+   returning normally: every immediately bound property holds exactly its expression recomputed from scratch over the current values *)
+Theorem C02_network_then_acting_observers_consistent :
+  forall fn rtl fuel ops1 ops2 q x pr z,
+    PropMove.grow3_run_ok fn rtl fuel PropDefs.world0 ops1 ->
+    PropGrowAct.act_run_ok fn rtl fuel (PropDefs.run fn rtl fuel ops1) ops2 ->
+    let w := PropDefs.run fn rtl fuel (ops1 ++ ops2) in
+    PropSim.imm_of w q = Some x -> Util.lookup (PropDefs.w_props w) q = Some pr ->
+    PropCheck.den_node fn (PropDefs.values w) (PropDefs.b_root x) = Some z -> PropDefs.pr_value pr = z.
+Proof. exact PropGrowAct.network_then_acting_observers_consistent. Qed.
+Print Assumptions C02_network_then_acting_observers_consistent.
+
+(* non-vacuity: 2 = x + y over inputs 0 and 1; an observer of 0's valueChanged writes 1 := v; an observer of 1 writes 3 := v, and 4 = 3 + 2;
+   the assignment 0 := 5 re-evaluates 2 to 6, then the first observer makes 1 = 5 (2 becomes 10), whose observer makes 3 = 5 (4 becomes 15) *)
+Example C02_acting_observers_executable_example :
+  let fn := fun (f : nat) (l : list Z) => Some (fold_right Z.add 0%Z l) in
+  let ops1 := [PropDefs.PNew 0 1%Z; PropDefs.PNew 1 1%Z; PropDefs.PNew 3 0%Z;
+               PropDefs.PBind 2 (PropDefs.EOp2 0 (PropDefs.EProp 0) (PropDefs.EProp 1)) PropDefs.MImmediate;
+               PropDefs.PBind 4 (PropDefs.EOp2 1 (PropDefs.EProp 3) (PropDefs.EProp 2)) PropDefs.MImmediate] in
+  let ops2 := [PropDefs.PObserve 0 PropDefs.KChanged 100 0 (Some (false, 1)); PropDefs.PObserve 1 PropDefs.KChanged 101 1 (Some (false, 3));
+               PropDefs.PSet 0 5%Z PropDefs.WSet] in
+  PropMove.grow3_run_ok fn true 8 PropDefs.world0 ops1 /\
+  PropGrowAct.act_run_ok fn true 8 (PropDefs.run fn true 8 ops1) ops2 /\
+  map (PropDefs.values (PropDefs.run fn true 8 (ops1 ++ ops2))) [0; 1; 2; 3; 4] = [Some 5%Z; Some 5%Z; Some 10%Z; Some 5%Z; Some 15%Z].
+Proof. vm_compute. repeat split; reflexivity. Qed.
